@@ -114,7 +114,9 @@ pub fn handle_watch(conn: &mut Connection, parts: &[RespFrame], storage: &Arc<St
                 match storage.register_watch(conn.db_index, &key) {
                     Ok(baseline_counter) => {
                         // Store the baseline counter for violation detection
-                        conn.transaction_state.watched_keys.insert((conn.db_index, key), baseline_counter);
+                        // Watching a key that is already watched keeps the first baseline: a change
+                        // made since the first WATCH must still abort the transaction
+                        conn.transaction_state.watched_keys.entry((conn.db_index, key)).or_insert(baseline_counter);
                     }
                     Err(_) => {
                         // If we can't register, use fallback counter
